@@ -1294,3 +1294,191 @@ Section EpanKDELaws.
       pose proof (Mo x (2 * M - x)). pose proof (R (2 * M - x)). pose proof (Z1 x Hx). lra.
   Qed.
 End EpanKDELaws.
+
+(* ====================================================================== *)
+(* 9. the delta kernel: weighted empirical distribution function            *)
+(* ====================================================================== *)
+Definition kde_ok_delta (k : kde) : Prop :=
+  k_xs k <> [] /\ ws_wf (k_xs k) (k_ws k) /\ ws_pos (k_ws k).
+
+Lemma kde_cdf_delta k x : k_xs k <> [] -> k_kernel k = KDelta ->
+  kde_cdf k x = option_map XFin (reflect_cdf (mix delta_cdf (k_xs k) (k_ws k)) (k_fuel k) (k_b k) x).
+Proof.
+  intros A E. unfold kde_cdf. rewrite E. destruct (k_xs k) as [|x0 xs] eqn:X; [congruence|]. reflexivity.
+Qed.
+Lemma kde_pdf_delta k x : k_xs k <> [] -> k_kernel k = KDelta ->
+  kde_pdf k x = option_map (fun v => if Qltb 0 v then XInf false else XFin 0)
+                  (reflect_pdf (mix delta_hit (k_xs k) (k_ws k)) (k_fuel k) (k_b k) x).
+Proof.
+  intros A E. unfold kde_pdf. rewrite E. destruct (k_xs k) as [|x0 xs] eqn:X; [congruence|]. reflexivity.
+Qed.
+
+Lemma wavg_delta_is_wecdf ps x : wavg delta_cdf ps x == wecdf ps x.
+Proof.
+  unfold wavg, wecdf. apply Qdiv_comp; [|reflexivity]. apply Qsum_ext. intros p _.
+  unfold delta_cdf.
+  assert (E : Qle_bool 0 (x - fst p) = Qle_bool (fst p) x).
+  { destruct (Qle_bool (fst p) x) eqn:A; qb; [apply Qle_bool_iff | apply Qle_bool_false]; lra. }
+  rewrite E. destruct (Qle_bool (fst p) x); ring.
+Qed.
+
+Section DeltaKDE.
+  Variable k : kde.
+  Hypothesis ok : kde_ok_delta k.
+  Hypothesis kern : k_kernel k = KDelta.
+
+  Let ne : k_xs k <> []. Proof. apply ok. Qed.
+  Let wf : ws_wf (k_xs k) (k_ws k). Proof. apply ok. Qed.
+  Let pok : pairs_ok (kde_ps k). Proof. destruct ok as (A & B & C). apply kpairs_ok; assumption. Qed.
+
+  Let Y_ecdf z : mix delta_cdf (k_xs k) (k_ws k) z == wecdf (kde_ps k) z.
+  Proof. rewrite mix_is_wavg by exact wf. apply wavg_delta_is_wecdf. Qed.
+
+  (* no boundary: CDF is the weighted empirical distribution function *)
+  Theorem delta_cdf_is_weighted_ecdf x : k_b k = BNone ->
+    exists c, kde_cdf k x = Some (XFin c) /\ c == wecdf (kde_ps k) x.
+  Proof.
+    intro B. rewrite kde_cdf_delta by assumption. rewrite B. cbn [reflect_cdf option_map].
+    eexists. split; [reflexivity | apply Y_ecdf].
+  Qed.
+
+  (* the empirical distribution function has no mass left of the data and all of it from
+     the largest value on *)
+  Lemma wecdf_left lo hi z : pairs_within lo hi (kde_ps k) -> z < lo -> wecdf (kde_ps k) z == 0.
+  Proof.
+    intros Hin Hz. rewrite <- wavg_delta_is_wecdf. apply wavg_const; [exact pok|].
+    intros p Hp. unfold pairs_within in Hin. rewrite Forall_forall in Hin. specialize (Hin p Hp).
+    unfold delta_cdf. assert (E : Qle_bool 0 (z - fst p) = false) by (apply Qle_bool_false; lra).
+    rewrite E. reflexivity.
+  Qed.
+  Lemma wecdf_right lo hi z : pairs_within lo hi (kde_ps k) -> hi <= z -> wecdf (kde_ps k) z == 1.
+  Proof.
+    intros Hin Hz. rewrite <- wavg_delta_is_wecdf. apply wavg_const; [exact pok|].
+    intros p Hp. unfold pairs_within in Hin. rewrite Forall_forall in Hin. specialize (Hin p Hp).
+    unfold delta_cdf. assert (E : Qle_bool 0 (z - fst p) = true) by (apply Qle_bool_iff; lra).
+    rewrite E. reflexivity.
+  Qed.
+
+  (* with one boundary (data inside): 0 below and AT BoundaryMin / 1 from BoundaryMax, and the
+     empirical distribution function strictly inside *)
+  Theorem delta_cdf_lower m lo hi x : k_b k = BLower m -> pairs_within lo hi (kde_ps k) -> m <= lo ->
+    exists c, kde_cdf k x = Some (XFin c) /\
+              (x <= m -> c == 0) /\ (m < x -> c == wecdf (kde_ps k) x).
+  Proof.
+    intros B Hin L. rewrite kde_cdf_delta by assumption. rewrite B. cbn [reflect_cdf].
+    destruct (Qltb x m) eqn:A; qb; cbn [option_map]; eexists; (split; [reflexivity|]); split; intro H;
+      try reflexivity; try (exfalso; lra).
+    - rewrite !Y_ecdf. assert (E : x == m) by lra.
+      assert (Ws : forall s t, s == t -> wecdf (kde_ps k) s == wecdf (kde_ps k) t).
+      { intros s t Est. rewrite <- !wavg_delta_is_wecdf. apply wavg_comp; [|exact Est].
+        intros a b Eab. unfold delta_cdf. rewrite Eab. reflexivity. }
+      rewrite (Ws (2 * m - x) x) by lra. ring.
+    - rewrite !Y_ecdf. rewrite (wecdf_left lo hi (2 * m - x) Hin) by lra. ring.
+  Qed.
+  Theorem delta_cdf_upper M lo hi x : k_b k = BUpper M -> pairs_within lo hi (kde_ps k) -> hi <= M ->
+    exists c, kde_cdf k x = Some (XFin c) /\
+              (M <= x -> c == 1) /\ (x < M -> c == wecdf (kde_ps k) x).
+  Proof.
+    intros B Hin L. rewrite kde_cdf_delta by assumption. rewrite B. cbn [reflect_cdf].
+    destruct (Qle_bool M x) eqn:A; qb; cbn [option_map]; eexists; (split; [reflexivity|]); split; intro H;
+      try reflexivity; try (exfalso; lra).
+    rewrite !Y_ecdf. rewrite (wecdf_right lo hi (2 * M - x) Hin) by lra. ring.
+  Qed.
+
+  (* the "density": +Inf exactly at the data points *)
+  Theorem delta_pdf_unbounded x : k_b k = BNone ->
+    ((exists p, In p (kde_ps k) /\ fst p == x) -> kde_pdf k x = Some (XInf false)) /\
+    ((forall p, In p (kde_ps k) -> ~ fst p == x) -> kde_pdf k x = Some (XFin 0)).
+  Proof.
+    intro B. rewrite kde_pdf_delta by assumption. rewrite B. cbn [reflect_pdf option_map].
+    assert (NN : forall t, 0 <= delta_hit t) by (intro t; unfold delta_hit; destruct (Qeq_bool t 0); lra).
+    pose proof (wavg_zero_iff (kde_ps k) pok delta_hit x NN) as Z.
+    pose proof (wavg_nonneg (kde_ps k) pok delta_hit x NN) as P.
+    rewrite <- (mix_is_wavg delta_hit _ _ x wf) in Z, P.
+    split.
+    - intros (p & Hp & E).
+      assert (A : Qltb 0 (mix delta_hit (k_xs k) (k_ws k) x) = true).
+      { apply Qltb_true. destruct (Qeq_dec (mix delta_hit (k_xs k) (k_ws k) x) 0) as [Q0|NQ]; [|lra].
+        exfalso. pose proof (proj1 Z Q0 p Hp) as D. unfold delta_hit in D.
+        assert (T : Qeq_bool (x - fst p) 0 = true) by (apply Qeq_bool_iff; lra). rewrite T in D. lra. }
+      rewrite A. reflexivity.
+    - intro H.
+      assert (A : Qltb 0 (mix delta_hit (k_xs k) (k_ws k) x) = false).
+      { apply Qltb_false. assert (Q0 : mix delta_hit (k_xs k) (k_ws k) x == 0); [|lra].
+        apply Z. intros p Hp. unfold delta_hit.
+        assert (T : Qeq_bool (x - fst p) 0 = false).
+        { apply Qeq_bool_false. intro E. apply (H p Hp). lra. }
+        rewrite T. reflexivity. }
+      rewrite A. reflexivity.
+  Qed.
+End DeltaKDE.
+
+(* ====================================================================== *)
+(* 10. lazy bandwidth, Bounds checker                                       *)
+(* ====================================================================== *)
+(* a non-zero Bandwidth is never touched; a zero one becomes Scott's value; a second call
+   changes nothing *)
+Theorem bandwidth_lazy (before scott : Q) :
+  (~ before == 0 -> bandwidth_after before scott = before) /\
+  (before == 0 -> bandwidth_after before scott = scott) /\
+  bandwidth_after (bandwidth_after before scott) scott = bandwidth_after before scott.
+Proof.
+  unfold bandwidth_after. repeat split.
+  - intro H. apply Qeq_bool_false in H. rewrite H. reflexivity.
+  - intro H. apply Qeq_bool_iff in H. rewrite H. reflexivity.
+  - destruct (Qeq_bool before 0) eqn:A.
+    + destruct (Qeq_bool scott 0); reflexivity.
+    + rewrite A. reflexivity.
+Qed.
+
+(* what an accepted Bounds() result means *)
+Theorem kde_bounds_ok_sound (b : bconf) (lo hi : xreal) (mass : Q) :
+  kde_bounds_ok b lo hi mass = true ->
+  exists l h, lo = XFin l /\ hi = XFin h /\ l <= h /\ (98 # 100) <= mass /\
+    match b with
+    | BNone => True
+    | BLower m => m <= l
+    | BUpper M => h <= M
+    | BBoth m M => m <= l /\ h <= M
+    | BBad => False
+    end.
+Proof.
+  unfold kde_bounds_ok. destruct lo as [| |l]; try discriminate. destruct hi as [| |h]; try discriminate.
+  intro H. apply andb_true_iff in H. destruct H as [H H3]. apply andb_true_iff in H. destruct H as [H1 H2].
+  qb. exists l, h. repeat split; auto.
+  unfold inside_bounds in H2. destruct b; auto; qb; auto. discriminate.
+Qed.
+
+(* the delta kernel's mass of a closed interval: total weight of the data points in it *)
+Theorem delta_mass_in_spec xs ws lo hi : ws_wf xs ws ->
+  delta_mass_in xs ws lo hi ==
+  Qsum (map (fun p => if Qle_bool lo (fst p) && Qle_bool (fst p) hi then snd p else 0) (kpairs xs ws))
+  / wtotal (kpairs xs ws).
+Proof.
+  intro W. unfold delta_mass_in. rewrite mix_is_wavg by exact W. unfold wavg.
+  apply Qdiv_comp; [|reflexivity]. apply Qsum_ext. intros p _.
+  assert (E1 : Qle_bool 0 (hi - fst p) = Qle_bool (fst p) hi).
+  { destruct (Qle_bool (fst p) hi) eqn:A; qb; [apply Qle_bool_iff | apply Qle_bool_false]; lra. }
+  assert (E2 : Qle_bool (hi - fst p) (hi - lo) = Qle_bool lo (fst p)).
+  { destruct (Qle_bool lo (fst p)) eqn:A; qb; [apply Qle_bool_iff | apply Qle_bool_false]; lra. }
+  rewrite E1, E2, andb_comm. destruct (Qle_bool lo (fst p) && Qle_bool (fst p) hi); ring.
+Qed.
+
+(* ====================================================================== *)
+(* 11. the pinned tree's doubly bounded density (defect D5) is NOT the fold  *)
+(* ====================================================================== *)
+(* sample {1,2,3}, h = 1, support [1/2, 4), x = 3: the repaired model gives the image sum 1/4,
+   the pinned variant (second series with +w) puts a spurious image at 3x - 2m - d = 1 and
+   gives 1/2 *)
+Definition d5_kde : kde := mkKde [1; 2; 3] None KEpan 1 (BBoth (1 # 2) 4).
+Theorem kde_both_D5_refuted :
+  exists (k : kde) (m M x : Q) (N : nat) (p : Q),
+    kde_ok k /\ k_kernel k = KEpan /\ k_b k = BBoth m M /\ pairs_within m M (kde_ps k) /\
+    m <= x /\ x < M /\ (k_fuel k <= N)%nat /\
+    kde_pdf k x = Some (XFin p) /\ p == fold_pdf (kde_f k) m M N x /\
+    ~ p == fold_pdf_D5 (kde_f k) m M N x.
+Proof.
+  exists d5_kde, (1 # 2), 4, 3, 5%nat, (1 # 4).
+  repeat split; try (vm_compute; congruence); try (vm_compute; lia).
+  repeat constructor; cbn; lra.
+Qed.
